@@ -424,7 +424,7 @@ def minimise(prop, path, binary, strict=False, extra_env=None, budget_s=90):
         # 1. drop the window placement of one operand at a time
         prefixes = sorted(set(k.rsplit(".", 1)[0] for k, v in kv if k.endswith(".view")))
         for pfx in prefixes:
-            cand = join([(k, v) for k, v in kv if not (k.startswith(pfx + ".") and k.rsplit(".", 1)[1] in ("view", "top", "bot", "lw", "rw", "slack", "fill", "fseed"))])
+            cand = join([(k, v) for k, v in kv if not (k.startswith(pfx + ".") and k.rsplit(".", 1)[1] in ("view", "top", "bot", "lw", "rw", "slack", "fill", "fseed", "nest"))])
             if cand != case and still_fails(cand):
                 case, changed = cand, True
                 break
